@@ -27,7 +27,7 @@ fn spec(tier: Tier) -> CheckSpec {
 		level: "exploration",
 		rule: format!(
 			"exhaustive: (crash) every token sequence, character string, number-like and text-block-like string of the C06 sequence spaces (same bounds) given to the jrsonnet-fmt pipeline (format, trim, final newline) with {}: no panic, no hang (10 s per case watchdog), a diagnostic (declined) whenever the evaluator's parser rejects the text, and a fixed point whenever it formats; \
-			(fixpoint) every program of the whole-grammar generator with <= {} non-literal constructs x indentation {{tabs, 2, 4}}, and every program with <= {} constructs additionally with every single insertion of {{newline, blank line, block comment, line comment on its own line, trailing line comment, hash comment, empty / blank / doc / multi-line block comment}} at every token boundary, and with one token per line, plus the repository's parser/formatter test inputs: format(format(x)) = format(x), i.e. `jrsonnet-fmt --test` accepts what `jrsonnet-fmt` printed. (cli) the real dev-profile jrsonnet-fmt executable on every text block of <= 2 lines over {{a, empty, tab+b, spaces+c, spaces only}} x block indentation {{space, tab}} x {{|||, |||-}}, multi-line string literals, every generated program with <= {} constructs and the repository inputs, x {{--indent 2, --indent 4, --hard-tabs}}: no panic (exit 101), stdout equal to the pipeline function used by the other parts, and `jrsonnet-fmt --test` exits 0 on that output. non-trivial = distinct (text, indentation) that the formatter formats",
+			(fixpoint) every program of the whole-grammar generator with <= {} non-literal constructs x indentation {{tabs, 2, 4}} (thorough: the programs with exactly 4 constructs and the decorations of those with 3 under indentation 2 only), and every program with <= {} constructs additionally with every single insertion of {{newline, blank line, block comment, line comment on its own line, trailing line comment, hash comment, empty / blank / doc / multi-line block comment}} at every token boundary, and with one token per line, plus the repository's parser/formatter test inputs: format(format(x)) = format(x), i.e. `jrsonnet-fmt --test` accepts what `jrsonnet-fmt` printed. (cli) the real dev-profile jrsonnet-fmt executable on every text block of <= 2 lines over {{a, empty, tab+b, spaces+c, spaces only}} x block indentation {{space, tab}} x {{|||, |||-}}, multi-line string literals, every generated program with <= {} constructs and the repository inputs, x {{--indent 2, --indent 4, --hard-tabs}}: no panic (exit 101), stdout equal to the pipeline function used by the other parts, and `jrsonnet-fmt --test` exits 0 on that output. non-trivial = distinct (text, indentation) that the formatter formats",
 			tier.q("indentation 2", "every indentation setting"),
 			tier.q(3, 4),
 			tier.q(2, 3),
@@ -115,7 +115,8 @@ pub fn check_text(rep: &mut Report, text: &str, indent: u8, deco: Option<(&str, 
 				F::Declined => {
 					outcome = "own-output-declined".into();
 					rep.violation(Violation {
-						class: format!("the formatter declines its own output{ctx}"),
+						// undecorated text: keyed by the token kinds of the first line the formatter printed
+						class: if deco.is_some() { format!("the formatter declines its own output{ctx}") } else { format!("the formatter declines its own output: `{}`", kinds_of_line(o1.lines().next().unwrap_or(""))) },
 						witness: text.to_owned(),
 						detail: format!("indentation {}\nfirst pass:\n{o1}", indent_name(indent)),
 						cost,
@@ -174,20 +175,24 @@ fn part_fixpoint(shard: &Shard, journal: &Journal, rep: &mut Report) {
 		}
 		let text = print(&e);
 		journal.note(idx, "fixpoint", &text);
-		for indent in INDENTS {
-			check_text(rep, &text, indent, None, c.used(), false);
+		// the largest programs of the thorough tier with one indentation setting, everything below with all three
+		let big = shard.tier == Tier::Thorough && c.used() >= k;
+		let ind: &[u8] = if big { &[2] } else { &INDENTS };
+		for indent in ind {
+			check_text(rep, &text, *indent, None, c.used(), false);
 		}
 		if c.used() <= kdeco {
+			let ind: &[u8] = if shard.tier == Tier::Thorough && c.used() >= kdeco { &[2] } else { &INDENTS };
 			for d in decorations(&text, true) {
 				journal.note(idx, "fixpoint", &d.text);
-				for indent in INDENTS {
+				for indent in ind.iter().copied() {
 					check_text(rep, &d.text, indent, Some((d.what, &d.prev, &d.next)), c.used() + 1, false);
 				}
 			}
 			// (the comment-at-every-boundary layouts are left to C19: here they would only merge the single-insertion classes)
 			for (what, t) in decorate_all(&text).into_iter().take(1) {
 				journal.note(idx, "fixpoint", &t);
-				for indent in INDENTS {
+				for indent in ind.iter().copied() {
 					check_text(rep, &t, indent, Some((what, "<all>", "<all>")), c.used() + 2, false);
 				}
 			}
